@@ -38,8 +38,6 @@ import (
 // api, type, source context) and descriptor.proto / plugin.proto (large proto2 types). c16pb is ordinary protoc-gen-go output
 // (c16pb/gen.go). Values come from the descriptor-driven generator (protogen.go).
 
-var schemaEventTypes = []proto.Message{&c16pb.Event{}, &c16pb.Leaf{}, &c16pb.Legacy{}}
-
 var schemaWKTs = []proto.Message{
 	&structpb.Value{}, &structpb.Struct{}, &structpb.ListValue{}, &anypb.Any{}, &timestamppb.Timestamp{}, &durationpb.Duration{},
 	&fieldmaskpb.FieldMask{}, &emptypb.Empty{}, &wrapperspb.DoubleValue{}, &wrapperspb.FloatValue{}, &wrapperspb.Int64Value{},
@@ -184,10 +182,7 @@ func genFromRicher(r *vlib.Rand) val {
 	if r.Bool() {
 		g.attachUnknown(rich.ProtoReflect(), pickUnknownMode(r)) // fields that even the newer schema does not know
 	}
-	b, err := proto.Marshal(rich)
-	if err != nil {
-		panic(harnessBug(fmt.Sprintf("marshal of the richer value: %v", err)))
-	}
+	b := detBytes(rich) // (deterministic: the order of map entries ends up in the unknown fields of the poorer value)
 	if err := proto.Unmarshal(b, poor); err != nil {
 		panic(harnessBug(fmt.Sprintf("decoding %T bytes into %T: %v", rich, poor, err)))
 	}
